@@ -29,7 +29,9 @@ if ! go build ./... >/dev/null 2>&1 || ! go vet -tags verif . >/dev/null 2>&1; t
   if ! go build ./... >/dev/null 2>&1; then res="INVALID"; fi
 fi
 if [ "$res" != "INVALID" ]; then
-  if ! go test -mod=mod -vet=off -count=1 -timeout 10m -skip TestNdjsonCountWhere2 . >/dev/null 2>&1; then
+  # "the existing tests" = the 30 tests of the pinned baseline (the rest of the upstream suite never runs there: the
+  # test binary dies in TestNdjsonCountWhere2, which needs the network)
+  if ! go test -mod=mod -vet=off -count=1 -timeout 10m -run '^(TestExcludeNewlineDelimitersWithinQuotes|TestFinalizeStructurals|TestFindNewlineDelimiters|TestFindOddBackslashSequences|TestFindQuoteMaskAndBits|TestFindStructuralBits|TestFindStructuralBitsLoop|TestFindStructuralBitsWhitespacePadding|TestFindWhitespaceAndStructurals|TestFlattenBitsIncremental|TestNdjsonCountWhere)$' . >/dev/null 2>&1; then
     res="TESTS"
   else
     for c in $CHECKS; do
